@@ -2,7 +2,7 @@ import itertools
 import os, sys
 sys.path.insert(0, os.path.join(os.path.dirname(__file__), '..', '..', 'tools'))
 from vlib import Unit, Query, Runner
-DOPS = ['open library into slot', 'load symbol from lib slot into sym slot', 'copy dl object', 'copy symbol', 'call symbol', 'destroy dl object', 'destroy symbol']
+DOPS = ['open library into slot', 'load symbol from lib slot into sym slot', 'copy dl object', 'copy symbol', 'call symbol', 'destroy dl object', 'destroy symbol', 'copy-assign symbol onto the other slot', 'move-assign symbol onto the other slot and destroy the source', 'copy-assign dl object onto the other slot']
 
 
 def plan(tier):
@@ -28,21 +28,25 @@ def plan(tier):
     pairs = list(itertools.product(range(7), repeat=2))
     triples = list(itertools.product(range(7), repeat=3))
     quads = list(itertools.product(range(7), repeat=4))
+    # assignment between objects of DIFFERENT libraries (ops 7 / 8 / 9), followed by destroying the other owners and a call
+    assigning = [((0, 0, 1, 1, 7, 6, 5, 5, 4), [0, 3, 0, 3, 1, 1, 1, 0, 0]), ((0, 0, 1, 1, 8, 5, 5, 4), [0, 3, 0, 3, 1, 1, 0, 0]), ((0, 0, 1, 1, 7, 5, 5, 6, 4), [0, 3, 0, 3, 0, 0, 1, 0, 1]),
+                 ((0, 0, 9, 1, 5, 5, 4), [0, 3, 1, 0, 0, 1, 0]), ((0, 1, 7, 5, 6, 4), [0, 0, 0, 0, 0, 1]), ((0, 1, 8, 5, 4), [0, 0, 0, 0, 1]), ((0, 0, 1, 9, 5, 5, 4), [0, 3, 0, 0, 0, 1, 0])]
     handpicked = [(0, 1, 5, 4), (0, 1, 3, 5), (0, 2, 5, 1), (0, 1, 5, 6), (0, 1, 6, 5), (0, 0, 1, 4), (0, 1, 1, 4), (0, 2, 1, 5), (0, 1, 3, 6), (0, 5, 0, 1)]
     if th:
         chosen = [(sq, f) for sq in triples for f in (-1, 0, 1, 2)] + [(sq, rnd.randint(-1, 3)) for sq in rnd.sample(quads, 400)] + [(sq, f) for sq in handpicked for f in (-1, 0, 1, 2, 3)]
     else:
         chosen = [(sq, rnd.randint(-1, 1)) for sq in pairs] + [(sq, rnd.randint(-1, 2)) for sq in rnd.sample(triples, 40)] + [(sq, -1) for sq in handpicked] + \
                  [(sq, rnd.randint(0, 3)) for sq in handpicked]
-    for sq, fail_at in chosen:
+    chosen = [(sq, -1, sl) for sq, sl in assigning] + [(sq, f, None) for sq, f in chosen]
+    for sq, fail_at, fixed_slots in chosen:
         nops = len(sq)
-        for rep in range(2):
-            slots = [rnd.randint(0, 3) for _ in sq]
+        for rep in range(2 if fixed_slots is None else 1):
+            slots = fixed_slots or [rnd.randint(0, 3) for _ in sq]
             d = ['-DMODE_DL', '-DNOPS=%d' % nops, '-DFAIL_AT=%d' % fail_at, '-DDL_OPS={%s}' % ','.join(map(str, sq)), '-DDL_ARGS={%s}' % ','.join(map(str, slots))]
             later_loader_call = fail_at >= 0 and any(x in (0, 1, 2, 3) for x in sq[fail_at + 1:])
             if later_loader_call:
                 d.append('-DFAIL_CONCRETE')   # a symbolic throw followed by more shared_ptr traffic costs minutes: the failure is then enumerated too
-            qs.append(Query('dl_%s_%s_f%s' % (''.join(map(str, sq)), ''.join(map(str, slots)), 'n' if fail_at < 0 else str(fail_at)), d, [], unwind=2, hardcap=16, est_gb=1, timeout=600,
+            qs.append(Query('dl_%s_%s_f%s' % (''.join(map(str, sq)), ''.join(map(str, slots)), 'n' if fail_at < 0 else str(fail_at)), d, [], unwind=2, hardcap=max(16, (nops + 1) * 4 + 4), harness_unwind=max(18, (nops + 1) * 4 + 2), est_gb=1, timeout=600,
                             profile=[[0], [1]], sample={'operations': [DOPS[x] for x in sq], 'slots': slots,
                                                         'symbolic': 'nothing' if fail_at < 0 or later_loader_call else 'whether the loader call of step %d fails' % fail_at,
                                                         'failing_step': fail_at}))
